@@ -138,7 +138,7 @@ fn check_upgraded_event(rep: &mut Report, events: &[Ev], addr: &Address, version
 
 fn workload_a(ctx: &Ctx, rep: &mut Report, uni: u64, len: u32) {
     let mut rng = ctx.rng_for(uni);
-    let seqs = 8u64.pow(len);
+    let seqs = 9u64.pow(len);
     let kind = KINDS[((uni / (2 * seqs)) % 6) as usize];
     let with_history = (uni / seqs) % 2 == 1;
     let mut code = uni % seqs;
@@ -165,9 +165,26 @@ fn workload_a(ctx: &Ctx, rep: &mut Report, uni: u64, len: u32) {
     let hash = native_hash(&u.env);
     let mut window = false;
     for step in 0..len {
-        let is_upgrade = code % 2 == 0;
-        let who = PRINCIPALS[((code / 2) % 4) as usize];
-        code /= 8;
+        let sym = code % 9;
+        code /= 9;
+        if sym == 8 {
+            // the role changes hands in the middle of the history (also while a window is open)
+            let new_owner = u.principal();
+            let (a, n) = (addr.clone(), new_owner.clone());
+            let o = u.call(Auth::Only(vec![owner.clone()]), &move |env: &Env| flat(OwnableClient::new(env, &a).try_transfer_ownership(&n)));
+            rep.step(format!("step {} transfer_ownership by the owner (window open: {}) -> {:?}", step, window, o.res));
+            rep.count("op:transfer-ownership-mid-history");
+            rep.eval("transfer_ownership", &format!("{}|transfer|{}|{}", kind, window, o.ok()), true);
+            if !o.ok() {
+                rep.foreign("ownership-transfer-refused");
+                return;
+            }
+            former = owner.clone();
+            owner = new_owner;
+            continue;
+        }
+        let is_upgrade = sym % 2 == 0;
+        let who = PRINCIPALS[((sym / 2) % 4) as usize];
         let auth = match who {
             "owner" => Auth::Only(vec![owner.clone()]),
             "former-owner" => Auth::AllBy(former.clone()),
@@ -287,6 +304,12 @@ fn workload_c(ctx: &Ctx, rep: &mut Report, uni: u64) {
     let stranger = u.principal();
     let upgrader = u.env.register(Upgrader, ());
     // production contracts can only be driven into the failure branches (their version is a constant)
+    // a third of the runs really swap the code: a native target is upgraded to the committed
+    // dummy.wasm (reports version 0.2.0, has migrate(String) for its owner)
+    if uni % 3 == 1 {
+        workload_c_real_swap(ctx, rep, &mut rng, u, owner, stranger, upgrader);
+        return;
+    }
     let kind = if uni % 3 == 0 { KINDS[(rng.usize(5))] } else { "versioned-target" };
     let addr = deploy(&mut u, kind, &owner, &mut rng);
     let hash = native_hash(&u.env);
@@ -386,9 +409,109 @@ fn workload_c(ctx: &Ctx, rep: &mut Report, uni: u64) {
     }
 }
 
+/// Does the target's instance storage hold dummy.wasm's migration datum?
+fn dummy_migrated(u: &U, addr: &Address) -> bool {
+    let sc = sc_addr(addr);
+    for (k, e, _) in u.snap() {
+        if let soroban_sdk::xdr::LedgerKey::ContractData(cd) = k.as_ref() {
+            if cd.contract == sc && matches!(cd.key, ScVal::LedgerKeyContractInstance) {
+                if let soroban_sdk::xdr::LedgerEntryData::ContractData(d) = &e.data {
+                    if let ScVal::ContractInstance(inst) = &d.val {
+                        if let Some(m) = &inst.storage {
+                            return m.iter().any(|en| en.key == sv_vec(vec![sv_sym("Data")]));
+                        }
+                    }
+                }
+            }
+        }
+    }
+    false
+}
+
+fn workload_c_real_swap(ctx: &Ctx, rep: &mut Report, rng: &mut Rng, mut u: U, owner: Address, stranger: Address, upgrader: Address) {
+    let addr = u.env.register(VersionedTarget, (&owner,));
+    let hash = u.env.deployer().upload_contract_wasm(Bytes::from_slice(&u.env, DUMMY_WASM));
+    u.skip_events();
+    let cur = version_of(&mut u, &addr);
+    let vclass = *rng.pick(&["same", "correct", "correct", "wrong"]);
+    let aclass = *rng.pick(&["both", "both", "upgrade-only", "migrate-only", "none", "stranger-both"]);
+    let dclass = *rng.pick(&["well-typed", "well-typed", "ill-typed", "wrong-arity", "empty"]);
+    let requested: Vec<u8> = match vclass {
+        "same" => cur.clone(),
+        "correct" => b"0.2.0".to_vec(),
+        _ => b"7.7.7".to_vec(),
+    };
+    let (up, ad, rq, h2) = (upgrader.clone(), addr.clone(), requested.clone(), hash.clone());
+    let f = move |env: &Env| -> Result<(), String> {
+        let mut data: SVec<Val> = SVec::new(env);
+        match dclass {
+            "well-typed" => data.push_back(sstr(env, b"migrated").to_val()),
+            "ill-typed" => data.push_back(7u32.into_val(env)),
+            "wrong-arity" => {
+                data.push_back(sstr(env, b"migrated").to_val());
+                data.push_back(Val::VOID.to_val());
+            }
+            _ => {}
+        }
+        flat_any(UpgraderClient::new(env, &up).try_upgrade(&ad, &sstr(env, &rq), &h2, &data))
+    };
+    // which of the owner's trees are provided (recorded with well-typed data so that both steps are reached)
+    let (up2, ad2, rq2, h3) = (upgrader.clone(), addr.clone(), b"0.2.0".to_vec(), hash.clone());
+    let (_, forest) = u.record(&move |env: &Env| {
+        let mut data: SVec<Val> = SVec::new(env);
+        data.push_back(sstr(env, b"migrated").to_val());
+        flat_any(UpgraderClient::new(env, &up2).try_upgrade(&ad2, &sstr(env, &rq2), &h3, &data))
+    });
+    let owner_sc = sc_addr(&owner);
+    let owner_trees: Vec<(soroban_sdk::xdr::ScAddress, soroban_sdk::xdr::SorobanAuthorizedInvocation)> = forest.into_iter().filter(|(a, _)| *a == owner_sc).collect();
+    let auth = match aclass {
+        "both" => Auth::Forest(owner_trees.clone()),
+        "upgrade-only" => Auth::Forest(owner_trees.iter().take(1).cloned().collect()),
+        "migrate-only" => Auth::Forest(owner_trees.iter().skip(1).cloned().collect()),
+        "none" => Auth::Nobody,
+        _ => Auth::Forest(owner_trees.iter().map(|(_, i)| (sc_addr(&stranger), i.clone())).collect()),
+    };
+    let completes = vclass == "correct" && aclass == "both" && dclass == "well-typed";
+    rep.step(format!("C(real swap to dummy.wasm): version={} auth={} data={} (owner trees recorded: {}) want_complete={}", vclass, aclass, dclass, owner_trees.len(), completes));
+    let exec0 = executable_of(&u, &addr);
+    let o = u.call(auth, &f);
+    rep.count("upgrader:target:real-swap");
+    rep.count(&format!("upgrader:version:{}", vclass));
+    rep.count(&format!("upgrader:auth:{}", aclass));
+    rep.count(&format!("upgrader:data:{}", dclass));
+    rep.eval("upgrader", &format!("real-swap|{}|{}|{}|{}", vclass, aclass, dclass, o.ok()), true);
+    if let Some(l) = &o.leak {
+        rep.violation(&format!("failed-upgrader-call-left-trace:{}:{}:{}", vclass, aclass, dclass), l.clone());
+        return;
+    }
+    // with well-typed data recorded for the honest call, a differing data vector makes the
+    // migrate tree mismatch: that is a refusal for lack of authorisation, which is fine
+    if o.ok() != completes {
+        let sig = if o.ok() { format!("upgrader-completed:{}:{}:{}", vclass, aclass, dclass) } else { "upgrader-refused-valid-request".to_string() };
+        rep.violation(&sig, format!("Upgrader.upgrade(real swap, version {}, auth {}, data {}) -> ok={}, model {}: {:?}", vclass, aclass, dclass, o.ok(), completes, o.res));
+        return;
+    }
+    if o.ok() {
+        let v = version_of(&mut u, &addr);
+        if v != requested || v == cur {
+            rep.violation("upgrader-ended-at-wrong-version", format!("version() = {:?}, requested {:?}", lossy(&v), lossy(&requested)));
+            return;
+        }
+        if executable_of(&u, &addr) == exec0 {
+            rep.violation("upgrader-completed-without-code-swap", "executable unchanged".into());
+            return;
+        }
+        if !dummy_migrated(&u, &addr) {
+            rep.violation("upgrader-completed-without-migration", "the Upgrader reported success but the new code's migration never ran".into());
+        }
+    } else if executable_of(&u, &addr) != exec0 || version_of(&mut u, &addr) != cur {
+        rep.violation("failed-upgrader-call-changed-target", "version or executable differ after a failed Upgrader call".into());
+    }
+}
+
 pub fn run(ctx: &Ctx, rep: &mut Report) {
     let len: u32 = if ctx.thorough() { 5 } else { 3 };
-    let n_a = 6 * 2 * 8u64.pow(len);
+    let n_a = 6 * 2 * 9u64.pow(len);
     let n_b = if ctx.thorough() { 240 } else { 36 };
     let n_c = ctx.universes(6000, 200000);
     let total = n_a + n_b + n_c;
@@ -419,7 +542,9 @@ pub fn run(ctx: &Ctx, rep: &mut Report) {
         req.push(format!("upgrader:data:{}", v));
     }
     req.push("real-swap".into());
+    req.push("op:transfer-ownership-mid-history".into());
+    req.push("upgrader:target:real-swap".into());
     rep.notes.insert("required".into(), json!(req));
-    rep.notes.insert("bounds".into(), json!({"workload_A_sequence_length": len, "workload_A_sequences": n_a, "workload_B_swaps": n_b, "workload_C_upgrader_calls": n_c, "exhaustive_part": "workload A (all sequences of the stated length over {upgrade, migrate} x {owner, former owner, stranger, nobody}, for 6 contracts, with and without a previous ownership transfer); B and C are sampled"}));
-    rep.notes.insert("rule".into(), json!("A: every sequence of the stated length over {upgrade, migrate} x {owner, former owner, stranger, nobody} on gateway, gas service, operators, ITS, interchain token and a versioned test target, run natively (upgrade to the native marker hash), window model checked at every step plus an end-of-history probe; B: real code swap to committed Wasm binaries (refused for stranger/nobody, executable hash changes, owner persists); C: Upgrader.upgrade with requested version {same, correct, wrong} x authorisation coverage {both steps, upgrade only, migrate only, none, stranger} x migration data {well-typed, ill-typed, wrong arity, empty}: completes and ends at the requested different version, or the whole ledger is unchanged. distinct = (contract, op, principal, window, history, outcome) / (target, version class, auth class, data class, outcome)"));
+    rep.notes.insert("bounds".into(), json!({"workload_A_sequence_length": len, "workload_A_sequences": n_a, "workload_B_swaps": n_b, "workload_C_upgrader_calls": n_c, "exhaustive_part": "workload A (all sequences of the stated length over {upgrade, migrate} x {owner, former owner, stranger, nobody} plus ownership transfer by the owner, for 6 contracts, with and without a previous ownership transfer); B and C are sampled"}));
+    rep.notes.insert("rule".into(), json!("A: every sequence of the stated length over the 9 symbols {upgrade, migrate} x {owner, former owner, stranger, nobody} and the-owner-transfers-ownership (so the role can change hands while a window is open) on gateway, gas service, operators, ITS, interchain token and a versioned test target, run natively (upgrade to the native marker hash), window model checked at every step plus an end-of-history probe; B: real code swap to committed Wasm binaries (refused for stranger/nobody, executable hash changes, owner persists); C: Upgrader.upgrade with requested version {same, correct, wrong} x authorisation coverage {both steps, upgrade only, migrate only, none, stranger} x migration data {well-typed, ill-typed, wrong arity, empty}: completes and ends at the requested different version, or the whole ledger is unchanged. distinct = (contract, op, principal, window, history, outcome) / (target, version class, auth class, data class, outcome)"));
 }
